@@ -50,6 +50,7 @@ FIELD_KINDS = {
     "list": ("string", "rep"),
     "labels": ("map", "string", "string"), "bmap": ("map", "string", "message", "Book"), "imap": ("map", "int32", "string"),
     "opt": ("int32", "optional"), "choice_a": ("string", "oneof"), "choice_b": ("int32", "oneof"),
+    "part": ("message", ".acme.lib.v1.common.Part"),
     "next": ("string",), "import": ("message", "Inner"), "retry": ("string",), "timeout": ("message", ".google.protobuf.Duration"),
     # well-known types as LEAVES (proto-plus marshals them: datetime, timedelta, plain scalars, native JSON values)
     "ts": ("message", ".google.protobuf.Timestamp"), "wrapped": ("message", ".google.protobuf.Int32Value"),
@@ -67,6 +68,10 @@ FIELD_KINDS = {
 # fields for which proto-plus `to_dict` output is not a valid request dict (int map keys / int64 as text, Value items and Any
 # as bare python values): the bytes-derived "request-dict" mode is not used with them (the literal mode writes real dicts)
 NO_TO_DICT = {"imap", "vals", "val", "meta", "vmap", "lv", "bigs", "big", "ubig", "status", "policy", "op"}
+# request messages defined in a SUB-PACKAGE file of the API (`acme.lib.v1.common`) while the service stays in the root package:
+# proto-plus types whose package differs from the service's — the templates' "different package" branch with a proto-plus owner
+SUB_FIELDS = ["parent", "title", "class", "type", "format", "count", "big", "ok", "blob", "ratio", "tags", "nums", "list", "blobs",
+              "flags", "ratios", "bigs", "labels", "imap", "next", "part", "opt", "opt_s", "choice_a", "choice_b", "ts", "meta"]
 RAW_FILES = {"status": "google/rpc/status.proto", "policy": "google/iam/v1/policy.proto", "op": "google/longrunning/operations.proto"}
 OPTIONALS = ("opt", "opt_s", "opt_b", "opt_color", "opt_book")
 # fixed helper messages: (name, kind…) in declaration order; numbers deliberately not ascending
@@ -103,6 +108,7 @@ SUB_PATHS = {
     "any": ["title", "count", "class"],
     "import": ["title", "count", "marks", "class"],       # a keyword in NON-terminal position (§9-F2, repaired by a0434d5)
     "opt_book": ["name", "pages"],
+    "part": ["title", "count", "marks"],
     "choice_c": ["title"],
     # paths INTO raw protobuf sub-messages: scalars work, repeated / message fields run into protobuf's assignment rules
     "status": ["code", "message", "details"],
@@ -120,7 +126,9 @@ def gen_method(r: apigen.Rng, idx: int):
         pool = DEP_REQUESTS[dep][1]
         m = {"name": f"Dep{idx}", "dep": dep, "fields": None}
     else:
-        names = ["parent"] + r.sample([n for n in FIELD_KINDS if n not in ("parent", "retry", "timeout")], r.randint(3, 9))
+        sub = r.maybe(0.15)
+        allowed = [n for n in (SUB_FIELDS if sub else FIELD_KINDS) if n not in ("parent", "retry", "timeout") and (sub or n != "part")]
+        names = ["parent"] + r.sample(allowed, r.randint(3, 9))
         if "choice_b" in names and "choice_a" not in names:
             names.append("choice_a")
         if "choice_c" in names and "choice_a" not in names:
@@ -129,7 +137,9 @@ def gen_method(r: apigen.Rng, idx: int):
             if o in names:
                 names.remove(o); names.append(o)
         numbers = r.sample(range(1, 60), len(names))
-        m = {"name": f"Op{idx}", "dep": None, "fields": [[n, num] for n, num in zip(names, numbers)]}
+        m = {"name": f"{'Sub' if sub else 'Op'}{idx}", "dep": None, "fields": [[n, num] for n, num in zip(names, numbers)]}
+        if sub:
+            m["sub"] = True
         pool = []
         for n in names:
             pool.append(n)
@@ -172,6 +182,15 @@ def gen_method(r: apigen.Rng, idx: int):
     return m
 
 
+def input_of(m):
+    """(full name of the request message, request package differs from the service's package)"""
+    if m["dep"]:
+        return m["dep"].lstrip("."), True
+    if m.get("sub"):
+        return f"{SUBPKG}.{m['name']}Request", True
+    return f"{PKG}.{m['name']}Request", False
+
+
 def gen_spec(r: apigen.Rng, nmethods=6):
     return {"methods": [gen_method(r, i) for i in range(nmethods)]}
 
@@ -203,7 +222,15 @@ def _add(msg, name, number, kind, *extra, oneof=None):
 def build_files(spec):
     deps = sorted({DEP_REQUESTS[m["dep"]][0] for m in spec["methods"] if m["dep"]} |
                   {RAW_FILES[n] for m in spec["methods"] for n, _ in (m["fields"] or []) if n in RAW_FILES})
+    anysub = any(m.get("sub") for m in spec["methods"])
     f = apigen.File("acme/lib/v1/lib.proto", PKG).dep(*deps)
+    common = None
+    if anysub:
+        common = apigen.File("acme/lib/v1/common/common.proto", SUBPKG)
+        part = common.msg("Part")
+        for (n, num, kind, *ex) in [("title", 2, "string"), ("count", 5, "int32"), ("marks", 1, "string", "rep"), ("class", 3, "string")]:
+            _add(part, n, num, kind, *ex)
+        f.dep("acme/lib/v1/common/common.proto")
     f.enum("Color", ["COLOR_UNSPECIFIED", "RED", "BLUE"])
     inner = f.msg("Inner")
     for (n, num, kind, *ex) in INNER_FIELDS:
@@ -219,13 +246,13 @@ def build_files(spec):
         if m["dep"]:
             inp = m["dep"]
         else:
-            rq = f.msg(m["name"] + "Request")
+            rq = (common if m.get("sub") else f).msg(m["name"] + "Request")
             for n, num in m["fields"]:
                 kd = FIELD_KINDS[n]
                 _add(rq, n, num, kd[0], *kd[1:])
             inp = rq
         svc.method(m["name"], inp, book, sigs=m["sigs"], cs=bool(m.get("cs")))
-    return [f]
+    return [common, f] if common is not None else [f]
 
 
 # ------------------------------------------------------------------------------------------------
@@ -340,8 +367,18 @@ def walk(codec, full, path):
     return out
 
 
+SUBPKG = PKG + ".common"
+
+
 def is_own(d):
-    return d.file.package == PKG
+    """a generated (proto-plus) type: the API's package or one of its sub-packages"""
+    return d.file.package == PKG or d.file.package.startswith(PKG + ".")
+
+
+def types_module(root_mod, d):
+    """python module of the generated types of `d`'s package (`root_mod` = acme.lib_v1)"""
+    sub = d.file.package[len(PKG) + 1:]
+    return root_mod + ("." + sub if sub else "") + ".types"
 
 
 def py_attr(owner, fd, reserved):
@@ -557,7 +594,8 @@ def lit_single(r, fd, v, reserved, types_mod):
     if fd.enum_type is not None:
         num = fd.enum_type.values_by_name[v].number if isinstance(v, str) else int(v)
         own = is_own_enum(fd.enum_type)
-        return {"t": "enum", "v": num, "py": f"{types_mod}:{fd.enum_type.name}" if own else None, "member": bool(own and r.maybe(0.5))}
+        return {"t": "enum", "v": num, "py": f"{types_module(types_mod, fd.enum_type)}:{fd.enum_type.name}" if own else None,
+                "member": bool(own and r.maybe(0.5))}
     if fd.type == fd.TYPE_BYTES:
         return {"t": "bytes", "v": v}
     if fd.type in (fd.TYPE_INT64, fd.TYPE_UINT64, fd.TYPE_SINT64, fd.TYPE_FIXED64, fd.TYPE_SFIXED64):
@@ -568,7 +606,7 @@ def lit_single(r, fd, v, reserved, types_mod):
 
 
 def is_own_enum(e):
-    return e.file.package == PKG
+    return is_own(e)
 
 
 def lit_field(r, fd, v, reserved, types_mod, in_request=False):
@@ -593,7 +631,7 @@ def lit_msg(r, desc, d, reserved, types_mod):
     for name, v in d.items():
         fd = desc.fields_by_name[name]
         fields[py_attr(desc, fd, reserved)] = lit_field(r, fd, v, reserved, types_mod, in_request=True)
-    return {"t": "own", "py": f"{types_mod}:{desc.name}", "fields": fields}
+    return {"t": "own", "py": f"{types_module(types_mod, desc)}:{desc.name}", "fields": fields}
 
 
 def falsy_literal(fd):
@@ -649,7 +687,7 @@ def shape_flags(codec, input_full, sigs, reserved, cross):
         owner, fd = ch[-1]
         if cross and (fd.message_type is not None or fd.enum_type is not None):
             continue
-        if cross and any(s in reserved for s in segs):
+        if cross and not is_own(ch[0][0]) and any(s in reserved for s in segs):
             flags.add("cross-reserved")
         if cross and len(segs) > 1:
             flags.add("cross-dotted")
@@ -676,7 +714,7 @@ def classify(kind, flags, plan=None, msg=""):
         if "Assignment not allowed" in msg:
             if kind in ("sync-kwargs-raised", "async-kwargs-raised", "sync-async") and any(p in rawmsg for p in given):
                 return "raw-owner-message:assign-attributeerror"
-        if kind in ("async-kwargs-raised", "sync-async") and "cross-dotted" in flags and "has no" in msg:
+        if kind in ("async-kwargs-raised", "sync-async") and "cross-dotted" in flags and ("has no" in msg or "Unknown field" in msg):
             return "async-cross-package-dotted-key:ctor-valueerror"
         if kind in ("async-kwargs-vs-request", "sync-async") and overlapping(given):
             return "overlapping-keys:async-extends"
@@ -697,8 +735,7 @@ def run_api(ctx, r, spec, label, plans=None, expect_flags=False):
     codec = Codec5(files)
     info = {}
     for m in spec["methods"]:
-        input_full = (m["dep"] or f".{PKG}.{m['name']}Request").lstrip(".")
-        cross = bool(m["dep"])
+        input_full, cross = input_of(m)
         want = expected_params(codec, input_full, m["sigs"], reserved, cross)
         info[m["name"]] = dict(input=input_full, cross=cross, flags=shape_flags(codec, input_full, m["sigs"], reserved, cross),
                                want=want, cs=bool(m.get("cs")), raw=raw_keys(want, cross))
@@ -722,7 +759,7 @@ def run_api(ctx, r, spec, label, plans=None, expect_flags=False):
             ctx.unsupported += 1
             continue
         ctx.traces += 1
-        ctx.count("request_package", "dependency" if inf["cross"] else "own")
+        ctx.count("request_package", "dependency" if m["dep"] else "sub-package" if m.get("sub") else "own")
         ctx.count("signatures", len(m["sigs"]))
         if svc is None:
             if "error" not in mo:
@@ -775,7 +812,7 @@ def run_api(ctx, r, spec, label, plans=None, expect_flags=False):
         # which methods can be called at all
         ops = [{"op": "import_all", "package": loc["service_module"]}]
         callable_methods = [m for m in spec["methods"] if info[m["name"]]["want"] and not info[m["name"]]["cs"]]
-        types_mod = loc["package"] + ".types"
+        types_mod = loc["package"]            # (root module; `types_module` adds the sub-package and `.types`)
         for m in spec["methods"]:
             for cl in ("client", "async_client"):
                 mod, cls = loc[cl].split(":")
@@ -809,7 +846,7 @@ def run_api(ctx, r, spec, label, plans=None, expect_flags=False):
                             v = get_path(full, p)
                             return [bypath[p][1], falsy_literal(fd) if v is None else lit_field(r, fd, v, reserved, types_mod)]
                         rq = lit_request(r, codec, inf["input"], full, reserved, types_mod)
-                        form = r.pick(["instance", "dict", "positional"]) if not inf["cross"] else r.pick(["instance", "positional"])
+                        form = r.pick(["instance", "dict", "positional"]) if not m["dep"] else r.pick(["instance", "positional"])
                         calls.append({"method": mname, "kwargs": [lit_kw(p) for p in keys], "repeat": 2})
                         if "vals" in full:
                             # proto-plus cannot CONSTRUCT a message with a repeated Value (a list is marshalled to ONE Value — the
@@ -818,7 +855,7 @@ def run_api(ctx, r, spec, label, plans=None, expect_flags=False):
                             calls.append(dict(base, mode="mixed", kwargs=[[bypath[mixed_key][1], bypath[mixed_key][2]]]))
                         else:
                             calls.append({"method": mname, "request": rq, "request_form": form, "repeat": 2})
-                            calls.append({"method": mname, "request": rq, "request_form": r.pick(["instance", "dict"]) if not inf["cross"] else "instance",
+                            calls.append({"method": mname, "request": rq, "request_form": r.pick(["instance", "dict"]) if not m["dep"] else "instance",
                                           "kwargs": [lit_kw(mixed_key)]})
                     else:
                         calls.append(dict(base, mode="kwargs", kwargs=kw))
@@ -990,14 +1027,14 @@ def t2_paths(ctx, r):
     svc = api.services[f"{PKG}.Library"]
     ops, cases = [], []
     for m in spec["methods"]:
-        input_full = (m["dep"] or f".{PKG}.{m['name']}Request").lstrip(".")
+        input_full, cross = input_of(m)
         schema = schema_json(codec, [input_full])
         top = [f[0] for f in m["fields"]] if m["fields"] else DEP_REQUESTS[m["dep"]][1]
         pool = list(top) + [f"{t}.{s}" for t in top for s in SUB_PATHS.get(t.split(".")[0], [])] + \
             r.sample(["nosuch", "parent.x", "tags.x", "book.nosuch", "books.name", "book.inner.marks.x", "labels.key", "book.import.title", "class_", ""], 2)
         for _ in range(ctx.n(12, 40)):
             sigs = [r.pick([",", ", ", " ,"]).join(r.sample(pool, min(len(pool), r.randint(0, 4)))) for _ in range(r.randint(1, 3))]
-            ops.append({"op": "c05.mapping", "schema": schema, "input": input_full, "cross_pkg": bool(m["dep"]), "sigs": sigs})
+            ops.append({"op": "c05.mapping", "schema": schema, "input": input_full, "cross_pkg": cross, "sigs": sigs})
             cases.append((m, sigs))
     res = ctx.driver.ask(ops)
     for (m, sigs), mo in zip(cases, res):
